@@ -1,8 +1,17 @@
 import BasicModel.Model.Token
-import BasicModel.Gen.Limits
 /-
-  `src/mach/listing.rs` — the program store: `BTreeMap<LineNumber, Line>` as a list sorted strictly
-  ascending by key, plus the diagnostics of the last compile.
+  `src/mach/listing.rs` — the program store, ported function by function.
+
+  `source` models `BTreeMap<LineNumber, Line>` (`LineNumber = Option<u16>`, `None < Some _`) as an
+  association list kept sorted strictly ascending by key.  Only `Some n` keys occur: both call sites
+  of `insert` (`Runtime::enter_indirect`, `load_str`) test `is_direct()` first; inserting a line
+  without a number is outside the model and leaves the listing unchanged.
+
+  `rooted` is a ghost of the B-tree: a map that has ever held an element keeps an allocated (possibly
+  empty) root until it is replaced by a fresh map (`clear`, `renum`), and
+  `BTreeMap::range(lo..=hi)` *panics* for `lo > hi` exactly when a root exists.  `rangeFaults` is
+  that panic condition; `removeRangeR`/`listLineR` are the functions with the panic modelled.
+  For `lo ≤ hi` (all the parser ever produces) they agree with the total `removeRange`/`listLine`.
 -/
 namespace Basic
 
@@ -10,89 +19,167 @@ structure Listing where
   source : List (Nat × Line) := []
   indirectErrors : List Error := []
   directErrors : List Error := []
-deriving Inhabited
+  rooted : Bool := false
 
 namespace Listing
 
+/-- `LineNumber::max_value() + 1` -/
+def endMark : Nat := maxLineNumber + 1
+
+/-- `clear` -/
 def clear (_ : Listing) : Listing := {}
 
+/-- `is_empty` -/
 def isEmpty (l : Listing) : Bool := l.source.isEmpty
 
-def insertSorted (k : Nat) (v : Line) : List (Nat × Line) → List (Nat × Line)
-  | [] => [(k, v)]
-  | (k', v') :: rest =>
-    if k < k' then (k, v) :: (k', v') :: rest
-    else if k = k' then (k, v) :: rest
-    else (k', v') :: insertSorted k v rest
+/-- `BTreeMap::insert` on the sorted association list: replace, or insert in order -/
+def insertSorted (n : Nat) (line : Line) : List (Nat × Line) → List (Nat × Line)
+  | [] => [(n, line)]
+  | (k, x) :: r =>
+    if n < k then (n, line) :: (k, x) :: r
+    else if n = k then (n, line) :: r
+    else (k, x) :: insertSorted n line r
 
-/-- `Listing::insert` -/
+/-- `BTreeMap::get` -/
+def get? (l : Listing) (n : Nat) : Option Line := (l.source.find? (fun p => p.1 == n)).map (·.2)
+
+/-- `insert` (the line previously stored under that number is `l.get? n`) -/
 def insert (l : Listing) (line : Line) : Listing :=
   match line.number with
-  | some n => { l with source := insertSorted n line l.source }
+  | some n => { l with source := insertSorted n line l.source, rooted := true }
   | none => l
 
-/-- `Listing::remove`; the flag says whether a line was removed -/
+/-- `remove`; the flag says whether a line was removed (`.is_some()` of the Rust result) -/
 def remove (l : Listing) (n : Option Nat) : Listing × Bool :=
   match n with
-  | some n =>
-    let found := l.source.any (·.1 = n)
-    ({ l with source := l.source.filter (·.1 ≠ n) }, found)
   | none => (l, false)
+  | some n =>
+    ({ l with source := l.source.filter (fun p => p.1 != n) }, l.source.any (fun p => p.1 == n))
 
-/-- is key `k` inside the inclusive range over `Option<u16>` (`None < Some _`)? -/
+/-- membership of the key `Some k` in `lo..=hi` over `Option<u16>` (`None < Some _`) -/
 def inRange (lo hi : Option Nat) (k : Nat) : Bool :=
-  (match lo with | none => true | some a => a ≤ k) && (match hi with | none => false | some b => k ≤ b)
+  (match lo with | none => true | some a => decide (a ≤ k)) &&
+  (match hi with | none => false | some b => decide (k ≤ b))
 
-/-- `Listing::remove_range` -/
+/-- `lo > hi` in the order of `Option<u16>` -/
+def inverted (lo hi : Option Nat) : Bool :=
+  match lo, hi with
+  | some _, none => true
+  | some a, some b => decide (b < a)
+  | none, _ => false
+
+/-- `self.source.range(lo..=hi)` panics ("range start is greater than range end in BTreeMap") -/
+def rangeFaults (l : Listing) (lo hi : Option Nat) : Bool := l.rooted && inverted lo hi
+
+/-- `remove_range`; the flag is the Rust return value -/
 def removeRange (l : Listing) (lo hi : Option Nat) : Listing × Bool :=
-  let hit := l.source.any (fun p => inRange lo hi p.1)
-  if hit then ({ l with source := l.source.filter (fun p => !inRange lo hi p.1) }, true) else (l, false)
+  if l.source.any (fun p => inRange lo hi p.1) then
+    ({ l with source := l.source.filter (fun p => !inRange lo hi p.1) }, true)
+  else (l, false)
 
+def removeRangeR (l : Listing) (lo hi : Option Nat) : Res (Listing × Bool) :=
+  if l.rangeFaults lo hi then fault "listing.rs remove_range: BTreeMap::range start > end"
+  else .ok (l.removeRange lo hi)
+
+/-- `lines` (ascending) -/
 def lines (l : Listing) : List Line := l.source.map (·.2)
 
-/-- `Error::column()`: the stored column shifted by the width of the line number and a blank -/
+/-- `Error::column()` of an error located in line `n` -/
+def errColumn (n : Nat) (e : Error) : Nat × Nat :=
+  let offset := (RStd.natDigits n).length + 1
+  (e.colStart + offset, e.colEnd + offset)
+
+/-- `Error::column()`: the stored column shifted by the width of the line number and a blank
+    (same function as `errColumn`, keyed by the error's own line; see `Thm.C19.errColumn_eq`) -/
 def errorColumn (e : Error) : Nat × Nat :=
   match e.line with
   | some n => let off := (toString n).length + 1; (e.colStart + off, e.colEnd + off)
   | none => (e.colStart, e.colEnd)
 
-/-- `Listing::list_line`: the first line inside the range and the range that remains -/
+/-- `list_line`: the first line in the range (if any), as listed text with the columns of the
+    compile errors located in it, and the range to continue with -/
 def listLine (l : Listing) (lo hi : Option Nat) :
     Option ((Str × List (Nat × Nat)) × (Option Nat × Option Nat)) :=
-  -- an inverted range makes `BTreeMap::range` panic in the Rust code; callers never build one
   match l.source.find? (fun p => inRange lo hi p.1) with
   | none => none
-  | some (k, line) =>
-    let next : Option Nat × Option Nat :=
-      if (match hi with | some b => decide (k < b) | none => false) then (some (k + 1), hi)
-      else (some (Gen.maxLineNumber + 1), some (Gen.maxLineNumber + 1))
-    let cols := (l.indirectErrors.filter (fun e => e.line = some k)).map errorColumn
-    some ((printLine line.number line.tokens, cols), next)
+  | some (n, line) =>
+    let range' : Option Nat × Option Nat :=
+      match hi with
+      | some b => if n < b then (some (n + 1), hi) else (some endMark, some endMark)
+      | none => (some endMark, some endMark)
+    let columns := l.indirectErrors.filterMap fun e =>
+      if e.line = some n then some (errColumn n e) else none
+    some ((printLine line.number line.tokens, columns), range')
 
-/-- the `changes` map of `Listing::renum` (old number ↦ new number), or the error -/
-def renumPlan (keys : List Nat) (newStart oldStart step : Nat) : Res (List (Nat × Nat)) :=
-  let rec go : List Nat → Nat → Nat → List (Nat × Nat) → Res (List (Nat × Nat))
-    | [], _, _, acc => .ok acc.reverse
-    | ln :: rest, oldEnd, newNum, acc =>
-      if ln ≥ oldStart then
-        if oldEnd ≤ Gen.maxLineNumber && oldEnd ≥ newStart then err Code.illegalFunctionCall
-        else if newNum > Gen.maxLineNumber then err Code.overflow
-        else if newNum + step > 65535 then err Code.overflow
-        else go rest oldEnd (newNum + step) ((ln, newNum) :: acc)
-      else go rest ln newNum acc
-  go keys (Gen.maxLineNumber + 1) newStart []
+def listLineR (l : Listing) (lo hi : Option Nat) :
+    Res (Option ((Str × List (Nat × Nat)) × (Option Nat × Option Nat))) :=
+  if l.rangeFaults lo hi then fault "listing.rs list_line: BTreeMap::range start > end"
+  else .ok (l.listLine lo hi)
 
-/-- `Listing::renum` -/
-def renum (lineRenum : List (Nat × Nat) → Line → Line) (l : Listing) (newStart oldStart step : Nat) : Res Listing := do
-  let changes ← renumPlan (l.source.map (·.1)) newStart oldStart step
-  let lines := l.lines.map (lineRenum changes)
-  .ok { l with source := lines.foldl (fun src ln => match ln.number with
-      | some n => insertSorted n ln src
-      | none => src) [] }
-
-/-- `Listing::line` -/
+/-- `line` -/
 def line (l : Listing) (num : Nat) : Option (Str × List (Nat × Nat)) :=
-  if num > Gen.maxLineNumber then none else (l.listLine (some num) (some num)).map (·.1)
+  if num > maxLineNumber then none
+  else (l.listLine (some num) (some num)).map (·.1)
+
+/-- the loop of `renum` that computes `changes`, over the keys in ascending order.
+    `oldEnd`/`newNum` are the loop variables; arguments are `u16` (≤ 65535). -/
+def renumGo (newStart oldStart step : Nat) : List Nat → Nat → Nat → Res (List (Nat × Nat))
+  | [], _, _ => .ok []
+  | ln :: r, oldEnd, newNum =>
+    if ln ≥ oldStart then
+      if oldEnd ≤ maxLineNumber ∧ oldEnd ≥ newStart then err Code.illegalFunctionCall
+      else if newNum > maxLineNumber then err Code.overflow
+      else if newNum + step > 65535 then err Code.overflow
+      else do
+        let rest ← renumGo newStart oldStart step r oldEnd (newNum + step)
+        .ok ((ln, newNum) :: rest)
+    else renumGo newStart oldStart step r ln newNum
+
+/-- the `changes` map of `renum` (as an association list, ascending by old number);
+    a step of 0 is rejected before anything else -/
+def renumPlan (keys : List Nat) (newStart oldStart step : Nat) : Res (List (Nat × Nat)) :=
+  if step = 0 then err Code.illegalFunctionCall
+  else renumGo newStart oldStart step keys endMark newStart
+
+/-- `new_source.insert(line.number(), line)` for every line, in order -/
+def rebuild (ls : List Line) : List (Nat × Line) :=
+  ls.foldl (fun acc line => match line.number with
+    | some n => insertSorted n line acc
+    | none => acc) []
+
+/-- `renum`; `lineRenum changes line` is `Line::renum` -/
+def renum (lineRenum : List (Nat × Nat) → Line → Line) (l : Listing)
+    (newStart oldStart step : Nat) : Res Listing := do
+  let changes ← renumPlan (l.source.map (·.1)) newStart oldStart step
+  .ok { l with source := rebuild (l.lines.map (lineRenum changes)), rooted := !l.source.isEmpty }
+
+/-- the line-number part of `Line::renum` (what it does to a line without references) -/
+def renumNumberOnly (changes : List (Nat × Nat)) (line : Line) : Line :=
+  match line.number with
+  | some n =>
+    match changes.find? (fun p => p.1 == n) with
+    | some p => { line with number := some p.2 }
+    | none => line
+  | none => line
+
+/-- `str::len()` -/
+def utf8Len (s : Str) : Nat := (s.map (fun c => c.utf8Size)).sum
+
+/-- `MAX_LINE_LEN` -/
+def maxLineLen : Nat := 1024
+
+/-- `load_str`; `lexFn` is `lex` -/
+def loadStr (lexFn : Str → Option Nat × List Token) (l : Listing) (s : Str) : Res Listing :=
+  if utf8Len s > maxLineLen then err Code.lineBufferOverflow
+  else
+    let nt := lexFn s
+    let line : Line := { number := nt.1, tokens := nt.2 }
+    if line.tokens.isEmpty then
+      match line.number with
+      | some n => .ok (l.remove (some n)).1
+      | none => .ok l
+    else if line.number.isNone then err Code.directStatementInFile
+    else .ok (l.insert line)
 
 end Listing
 end Basic
